@@ -258,6 +258,8 @@ def check(ctx, rep):
     eff = Effects(prog, ctx.resolver)
     rep.rule("R14a", "module-level writes on the request path: guarded idempotent lazy init from configuration only; no in-place mutation of shared objects", floor=5)
     rep.rule("R14b", "protocol/handler objects are per request; header cache is per connection", floor=3)
+    rep.rule("R14d", "socketserver hooks the worker bookkeeping lives in (service_actions, handle_timeout, server_close, ...) are not overridden "
+             "without handing on to the inherited implementation", floor=1)
     rep.rule("R14c", "fork child always _exit()s; parent records child, closes, returns; thread worker always shuts down", floor=2)
     funcs = request_functions(ctx, eff)
     rep.analysed(*sorted(f.qualname for f in funcs)[:150])
@@ -340,6 +342,30 @@ def check(ctx, rep):
         if not ok:
             problems.append("the header cache is not attached to the per-connection request handler")
         rep.add("R14b", f"{hs.qualname}: header cache per connection", not problems, ctx.where(hs), "; ".join(sorted(set(problems))), key="R14b|headerslurp")
+
+    # ------------------------------------------------------------------ R14d
+    bs0 = ctx.cls("server.BaseServer")
+    HOOKS = ("service_actions", "handle_timeout", "server_close", "collect_children", "shutdown", "server_activate")
+    n_h = 0
+    for S in (prog.subclasses(bs0) if bs0 else []):
+        for name in HOOKS:
+            m = S.methods.get(name)
+            if m is None:
+                continue
+            n_h += 1
+            bad = False
+            for p in Walker(prog, ctx.resolver).run(m, S):
+                if p.kind == "raise":
+                    continue
+                if not any(e.kind == "call" and isinstance(e.node.func, ast.Attribute) and e.node.func.attr == name
+                           and (norm(e.node.func.value).startswith("super(") or "socketserver." in norm(e.node.func.value)) for e in p.events):
+                    bad = True
+            rep.add("R14d", f"{m.qualname} hands on to the socketserver implementation", not bad, ctx.where(m),
+                    f"{name}() is overridden without calling super().{name}() on every path: in the forking server that method is where finished workers "
+                    "are reaped and the worker table is kept (ForkingMixIn), so workers pile up as zombies and the server's bookkeeping of running "
+                    "workers never shrinks" if bad else "", key=f"R14d|{m.qualname}")
+    if n_h == 0:
+        rep.ok("R14d", "no socketserver hook is overridden by the server classes", "pygopherd/server.py", nontrivial=False)
 
     # ------------------------------------------------------------------ R14c
     bs = ctx.cls("server.BaseServer")
